@@ -105,6 +105,23 @@ def read_contributors(path):
         return None
 
 
+def carrier_bytes(path):
+    """Bytes of the file and of its .license sibling (None when absent)."""
+    out = []
+    for p in (str(path), str(path) + ".license"):
+        try:
+            with open(p, "rb") as fp:
+                out.append(fp.read())
+        except OSError:
+            out.append(None)
+    return tuple(out)
+
+
+def succeeded(r, before_bytes, path):
+    """annotate wrote a header: exit 0 and either it says so or the carrier changed (skipped files exit 0 as well)."""
+    return r.exit_code == 0 and ("Successfully changed header" in r.stdout or carrier_bytes(path) != before_bytes)
+
+
 def carrier_of(path):
     p = str(path)
     return p + ".license" if os.path.exists(p + ".license") else p
